@@ -428,6 +428,15 @@ PPL::Grid::relation_with(const Congruence& cg) const {
 
   PPL_DIRTY_TEMP_COEFFICIENT(div);
   div = cg.modulus();
+  // The scalar products of points and parameters are scaled by the
+  // (common) divisor of the generator system: scale the modulus too.
+  for (Grid_Generator_System::const_iterator i = gen_sys.begin(),
+         i_end = gen_sys.end(); i != i_end; ++i) {
+    if (i->is_point()) {
+      div *= i->divisor();
+      break;
+    }
+  }
 
   PPL_DIRTY_TEMP_COEFFICIENT(sp);
 
@@ -485,7 +494,7 @@ PPL::Grid::relation_with(const Congruence& cg) const {
 
     case Grid_Generator::PARAMETER:
       if (cg.is_proper_congruence()) {
-        sp %= (div * g.divisor());
+        sp %= div;
       }
       if (sp == 0) {
         // Parameter g satisfies the cg so the relation depends
